@@ -41,33 +41,60 @@ fn patchv(bytes: &[u8], f: &Field, v: u64) -> Vec<u8> {
 }
 
 fn inflate_family(bases: &[Based]) -> InputFam {
-    let mut v: Vec<(String, Vec<u8>)> = Vec::new();
-    for b in bases {
-        let sized: Vec<&Field> = b.fields.iter().filter(|f| matches!(f.role, Role::Size | Role::Count | Role::Index | Role::StrLen)).collect();
-        for f in &sized {
+    // lazily generated: (base, field i, value, optional (field j, value))
+    let mut idx: Vec<(u16, u16, u64, Option<(u16, u64)>)> = Vec::new();
+    let mut all: Vec<(String, Arc<Vec<u8>>, Arc<Vec<Field>>)> = Vec::new();
+    for (bi, b) in bases.iter().enumerate() {
+        let sized: Vec<Field> = b.fields.iter().filter(|f| matches!(f.role, Role::Size | Role::Count | Role::Index | Role::StrLen)).cloned().collect();
+        for (i, f) in sized.iter().enumerate() {
             for x in larger_values(f, read_field(&b.bytes, f)) {
-                v.push((format!("{} {}={}", b.name, f.label(), x), patchv(&b.bytes, f, x)));
+                idx.push((bi as u16, i as u16, x, None));
             }
         }
-        // pairs of size/count fields at {type max, half of it, a mid value}
-        for i in 0..sized.len() {
-            for j in i + 1..sized.len() {
-                let tops = |f: &Field| -> Vec<u64> {
-                    let m = if f.width == 1 { 255u64 } else if f.width == 2 { 65535 } else { 0xFFFF_FFFF };
-                    vec![m, m / 2 + 1, 4096.min(m)]
-                };
-                for a in tops(sized[i]) {
-                    for c in tops(sized[j]) {
-                        let x = patchv(&b.bytes, sized[i], a);
-                        v.push((format!("{} {}={} {}={}", b.name, sized[i].label(), a, sized[j].label(), c), patchv(&x, sized[j], c)));
+        // pairs of size/count fields at {type max, half of it, a mid value}; not for bases above 100 KB
+        if b.bytes.len() <= 100_000 {
+            let tops = |f: &Field| -> Vec<u64> {
+                let m = if f.width == 1 { 255u64 } else if f.width == 2 { 65535 } else { 0xFFFF_FFFF };
+                vec![m, m / 2 + 1, 4096.min(m)]
+            };
+            for i in 0..sized.len() {
+                for j in i + 1..sized.len() {
+                    for a in tops(&sized[i]) {
+                        for c in tops(&sized[j]) {
+                            idx.push((bi as u16, i as u16, a, Some((j as u16, c))));
+                        }
                     }
                 }
             }
         }
+        all.push((b.name.clone(), Arc::new(b.bytes.clone()), Arc::new(sized)));
     }
-    let inputs = Arc::new(v);
-    let i2 = inputs.clone();
-    InputFam { name: "inflate-declared".into(), what: "b1..b4: every size / count / index / string-length field set to every larger value of its boundary alphabet up to the type maximum, one at a time, and all pairs of such fields at {max, max/2+1, 4096}".into(), n: inputs.len(), gen: Box::new(move |i| inputs[i].1.clone()), label: Box::new(move |i| i2[i].0.clone()) }
+    let idx = Arc::new(idx);
+    let all = Arc::new(all);
+    let (i2, a2) = (idx.clone(), all.clone());
+    let (i3, a3) = (idx.clone(), all.clone());
+    InputFam {
+        name: "inflate-declared".into(),
+        what: "b1..b4, D1 (indexed) and `big`: every size / count / index / string-length field set to every larger value of its boundary alphabet up to the type maximum, one at a time, and (bases below 100 KB) all pairs of such fields at {max, max/2+1, 4096}".into(),
+        n: idx.len(),
+        gen: Box::new(move |k| {
+            let (bi, i, x, second) = i2[k];
+            let (_, bytes, sized) = &a2[bi as usize];
+            let mut v = patchv(bytes, &sized[i as usize], x);
+            if let Some((j, c)) = second {
+                v = patchv(&v, &sized[j as usize], c);
+            }
+            v
+        }),
+        label: Box::new(move |k| {
+            let (bi, i, x, second) = i3[k];
+            let (name, _, sized) = &a3[bi as usize];
+            match second {
+                None => format!("{} {}={}", name, sized[i as usize].label(), x),
+                Some((j, c)) => format!("{} {}={} {}={}", name, sized[i as usize].label(), x, sized[j as usize].label(), c),
+            }
+        }),
+    }
 }
 
 fn bombs(thorough: bool) -> InputFam {
